@@ -1107,3 +1107,98 @@ def r_rot_small_angle(cx):
               "rotation_matrix (exact = false, position_vector = %s): %s - in small-angle mode coordinate_frame with "
               "rotations r no longer equals position_vector with -r" % (str(pv).lower(), why), cx.where(f.d["span"]))
     cx.count("R-ROT-SMALL-ANGLE", "matrices", n)
+
+
+@rule("T-MOLODENSKY", ["C07"])
+def t_molodensky(cx):
+    """The three-parameter part of the Molodensky formulas is the exact linearisation of a cartesian shift in geographic
+    coordinates (da = df = 0): with J the Jacobian of (lam, phi, h) -> (X, Y, Z),
+        dlam (N + h) cos phi = -dx sin lam + dy cos lam
+        dphi (M + h)         = -(dx cos lam + dy sin lam) sin phi + dz cos phi
+        dh                   =  (dx cos lam + dy sin lam) cos phi + dz sin phi
+    and the abridged formulas are the same with h dropped from the two denominators. The values calc_molodensky_params
+    returns (read as exact rational functions of dx, dy, dz, N, M, h and the sines / cosines, with da = df = adffda = 0)
+    satisfy these identities - this is the clause "molodensky agrees with the cartesian three-parameter Helmert path"
+    as far as it is algebra."""
+    import guards
+    import elems as E
+    from poly import Poly, subst
+    from rules.algebra import _rf
+    name = "inner_op::molodensky::calc_molodensky_params"
+    if not cx.f.has_fn(name):
+        cx.ob("T-MOLODENSKY", "anchor", False, "anchor-missing: %s" % name)
+        return
+    f = cx.f.fn(name)
+    adt = cx.f.lib["adts"].get("inner_op::molodensky::Molodensky")
+    fields = [x["name"] for x in adt["variants"][0]["fields"]] if adt else []
+    rt = E.return_term(f)
+    abr_atom = None
+    if "abridged" in fields:
+        abr_atom = ("proj", ("proj", ("arg", 1), "deref"), ("f", fields.index("abridged")))
+
+    def atom(t):
+        t = mir.strip_refs(t)
+        if t[0] == "proj" and isinstance(t[2], tuple):
+            b = mir.strip_refs(t[1])
+            if t[2][0] == "f" and b in (("proj", ("arg", 1), "deref"), ("arg", 1)) and t[2][1] < len(fields):
+                return "p_" + fields[t[2][1]]
+            if t[2][0] == "elem" and len(t[2]) > 1 and isinstance(t[2][1], int) and b in (("proj", ("arg", 2), "deref"), ("arg", 2)):
+                return ("lam", "phi", "h", "t")[t[2][1]] if t[2][1] < 4 else None
+            if t[2][0] == "f" and b[0] == "call" and isinstance(b[1], str) and b[1].endswith("::sin_cos") and b[2]:
+                inner = atom(b[2][0])
+                if inner in ("lam", "phi"):
+                    return ("s" if t[2][1] == 0 else "c") + inner
+        if t[0] == "call" and isinstance(t[1], str):
+            tail = t[1].rsplit("::", 1)[-1]
+            if tail == "prime_vertical_radius_of_curvature":
+                return "N"
+            if tail == "meridian_radius_of_curvature":
+                return "M"
+            if tail == "index" and len(t[2]) == 2 and mir.strip_refs(t[2][1])[0] == "const":
+                b = mir.strip_refs(t[2][0])
+                if b in (("arg", 2), ("proj", ("arg", 2), "deref")):
+                    k = mir.strip_refs(t[2][1])[2]
+                    return ("lam", "phi", "h", "t")[k] if isinstance(k, int) and k < 4 else None
+            if tail == "sin" and t[2]:
+                # sin(2 phi) only occurs with the factor adffda, which is set to zero
+                return "sin_other"
+        return None
+    S = Poly.sym
+    zero = {"p_da": Poly.const(0), "p_df": Poly.const(0), "p_adffda": Poly.const(0)}
+    fac = S("p_dx") * S("clam") + S("p_dy") * S("slam")
+    n = 0
+    for mode, abridged in (("full", False), ("abridged", True)):
+        m = guards.resolve(f, rt, {abr_atom: abridged, mir.strip_refs(abr_atom): abridged,
+                                   ("proj", ("arg", 1), abr_atom[2]): abridged}) if (rt is not None and abr_atom is not None) else None
+        raws = []
+        if m is not None:
+            mir.walk(m, lambda y: (raws.append(y) if y[0] == "call" and isinstance(y[1], str) and y[1].endswith("Coor4D::raw")
+                                   and y not in raws else None) or True)
+        if len(raws) != 1:
+            n += 1
+            cx.ob("T-MOLODENSKY", mode, False,
+                  "anchor-missing: cannot single out the %s result of calc_molodensky_params (%d candidates)" % (mode, len(raws)),
+                  cx.where(f.d["span"]))
+            continue
+        a = raws[0][2]
+        hh = Poly.const(0) if abridged else S("h")
+        want = {
+            "dlam": (S("p_dy") * S("clam") - S("p_dx") * S("slam"), (S("N") + hh) * S("cphi")),
+            "dphi": (S("p_dz") * S("cphi") - fac * S("sphi"), S("M") + hh),
+            "dh": (fac * S("cphi") + S("p_dz") * S("sphi"), Poly.const(1)),
+        }
+        for label, term in (("dlam", a[0]), ("dphi", a[1]), ("dh", a[2])):
+            n += 1
+            r = _rf(term, atom)
+            ok = False
+            why = "is not a rational function of the expected quantities"
+            if r is not None:
+                num, den = subst(r[0], zero), subst(r[1], zero)
+                wn, wd = want[label]
+                ok = num * wd == wn * den
+                why = "is (%s) / (%s)" % (str(num)[:80], str(den)[:60])
+            cx.ob("T-MOLODENSKY", "%s/%s" % (mode, label), ok,
+                  "%s Molodensky: %s is the exact linearisation of the cartesian shift" % (mode, label) if ok else
+                  "%s Molodensky: with da = df = 0, %s %s - not the linearised cartesian shift (e.g. the ellipsoidal height "
+                  "missing from a denominator of the full formulas)" % (mode, label, why), cx.where(f.d["span"]))
+    cx.count("T-MOLODENSKY", "identities", n)
